@@ -95,11 +95,15 @@ void tab_rehash_contract(JanetTable *t, int32_t size) {
 #define SAME_BUCKETS(t, snap, msg) for (int i_ = 0; i_ < TAB_CAP; i_++) \
     __CPROVER_assert((t)->data[i_].key.u64 == (snap)[i_].key.u64 && (t)->data[i_].value.u64 == (snap)[i_].value.u64, msg)
 
-/* ================= janet_table_put ================= */
-void h_table_put(void) {
-  tab_init();
+/* ================= janet_table_put =================
+ * One call site per (count, deleted) pair allowed by the load clause: both are constants there, so is the decision to
+ * rehash and the new capacity janet_tablen(2*count+2), and with them every loop bound (DESIGN C04: "one job per capacity
+ * so loop bounds are constants"). Together the cases cover every well-formed table of capacity TAB_CAP. */
+static void tab_put_case(int32_t count, int32_t deleted) {
   JanetTable *dang = tab_dangling();
   JanetTable *t = tab_any_table(TAB_CAP, dang);
+  t->count = count;
+  t->deleted = deleted;
   __CPROVER_assume(tab_wf_table(t, 0));                            /* requires wf_table(t) */
   GHOST(g);
   int k = nd_int(); __CPROVER_assume(k >= 0 && k <= TAB_K);
@@ -109,7 +113,8 @@ void h_table_put(void) {
   int present = tab_lookup(t->data, TAB_CAP, k).u64 != tab_nilw;
   int32_t oc = t->count, od = t->deleted;
   JanetKV *odata = t->data;
-  JanetKV snap[TAB_CAP];
+  JanetKV *snap = malloc(TAB_CAP * sizeof(JanetKV));
+  __CPROVER_assume(snap != TAB_NULL);
   for (int i = 0; i < TAB_CAP; i++) snap[i] = t->data[i];
   g_rh_calls = 0;
 
@@ -135,13 +140,18 @@ void h_table_put(void) {
   REACH("put returns");
   if (k != 0 && !isnil && !present && g_rh_calls == 0) REACH("put inserts a new key without rehash");
   if (k != 0 && !isnil && !present && g_rh_calls != 0) REACH("put inserts a new key after rehash");
-#if TAB_CAP >= 4
   /* (a put never lands on a tombstone: under the load clause an EMPTY bucket ends every probe first, so the
    *  `--t->deleted` of janet_table_put is unreachable from well-formed tables) */
   if (k != 0 && !isnil && present) REACH("put overwrites a present key");
   if (k != 0 && isnil && present) REACH("put with nil removes a present key");
-#endif
   if (k == 0) REACH("put ignores a nil or NaN key");
+}
+void h_table_put(void) {
+  tab_init();
+  int32_t c0 = nd_i32(), d0 = nd_i32();
+  for (int32_t c = 0; 2 * c <= TAB_CAP; c++)
+    for (int32_t d = 0; 2 * (c + d) <= TAB_CAP; d++)
+      if (c0 == c && d0 == d) tab_put_case(c, d);
 }
 
 /* ================= janet_table_remove ================= */
